@@ -51,6 +51,10 @@ pub struct Case {
     pub lose_pack: Option<u16>,
     /// renumber all inodes between the backups (as after a remount)
     pub renumber_inodes: bool,
+    /// the times that move for a changed file move only within their second (by this many
+    /// nanoseconds, wrapping inside the second) — a writer finishing right after the parent backup
+    #[serde(default)]
+    pub subsecond: Option<u32>,
 }
 
 fn strategy(_ctx: &Ctx) -> BoxedStrategy<Case> {
@@ -61,15 +65,30 @@ fn strategy(_ctx: &Ctx) -> BoxedStrategy<Case> {
                 Just(cfg),
                 tree(p),
                 prop::option::weighted(0.3, prop::collection::vec(edit(p), 1..3)),
-                prop::collection::vec(edit(p), 0..5),
+                (
+                    prop::collection::vec(edit(p), 0..5),
+                    // same-size in-place change: the case only time comparison can notice
+                    prop::option::weighted(
+                        0.35,
+                        (any::<u16>(), any::<u16>(), crate::r#gen::content(p.unit / 4 + 1, p.unit.max(16)))
+                            .prop_map(|(f, o, c)| Edit::Overwrite(f, o, c)),
+                    ),
+                )
+                    .prop_map(|(mut v, o)| {
+                        v.extend(o);
+                        v
+                    }),
                 prop_oneof![3 => Just(TimeMode::Both), 2 => Just(TimeMode::CtimeOnly), 2 => Just(TimeMode::SizeOnly)],
                 (any::<bool>(), any::<bool>(), prop::bool::weighted(0.3), any::<bool>()),
                 prop::option::weighted(0.25, any::<u16>()),
-                prop::bool::weighted(0.3),
+                (
+                    prop::bool::weighted(0.3),
+                    prop::option::weighted(0.3, prop_oneof![Just(0u32), Just(999_999_998u32), 0u32..999_999_999]),
+                ),
             )
         })
         .prop_map(
-            |(cfg, tree, mid, edits, time_mode, (ignore_ctime, ignore_inode, skip, explicit), lose_pack, renumber_inodes)| Case {
+            |(cfg, tree, mid, edits, time_mode, (ignore_ctime, ignore_inode, skip, explicit), lose_pack, (renumber_inodes, subsecond))| Case {
                 cfg,
                 tree,
                 mid,
@@ -81,6 +100,7 @@ fn strategy(_ctx: &Ctx) -> BoxedStrategy<Case> {
                 explicit,
                 lose_pack,
                 renumber_inodes,
+                subsecond,
             },
         )
         .boxed()
@@ -88,7 +108,7 @@ fn strategy(_ctx: &Ctx) -> BoxedStrategy<Case> {
 
 /// Apply the script and then adjust the times of changed files according to `mode`, never leaving
 /// the statement's premise.
-fn apply_script(tree: &mut MNode, script: &[Edit], mode: TimeMode, ignore_ctime: bool, tick: i64) -> (bool, bool) {
+fn apply_script(tree: &mut MNode, script: &[Edit], mode: TimeMode, ignore_ctime: bool, tick: i64, subsecond: Option<u32>) -> (bool, bool) {
     let before = flatten(tree);
     // remember old (size, mtime, ctime) per inode for files
     fn collect(n: &MNode, out: &mut BTreeMap<u64, (usize, crate::model::MTime, crate::model::MTime, Vec<u8>)>) {
@@ -111,6 +131,7 @@ fn apply_script(tree: &mut MNode, script: &[Edit], mode: TimeMode, ignore_ctime:
         old: &BTreeMap<u64, (usize, crate::model::MTime, crate::model::MTime, Vec<u8>)>,
         mode: TimeMode,
         ignore_ctime: bool,
+        subsecond: Option<u32>,
     ) {
         if let MKind::File { content } = &n.kind {
             if let Some((osize, omtime, octime, obytes)) = old.get(&n.inode) {
@@ -131,16 +152,28 @@ fn apply_script(tree: &mut MNode, script: &[Edit], mode: TimeMode, ignore_ctime:
                             }
                         }
                     }
+                    if let Some(d) = subsecond {
+                        // whichever time moved, moved inside its second only
+                        let within = |old: &crate::model::MTime| {
+                            crate::model::MTime(old.0, ((u64::from(old.1) + 1 + u64::from(d) % 999_999_999) % 1_000_000_000) as u32)
+                        };
+                        if n.mtime != *omtime {
+                            n.mtime = within(omtime);
+                        }
+                        if n.ctime != *octime {
+                            n.ctime = within(octime);
+                        }
+                    }
                 }
             }
         }
         if let Some(ch) = n.children_mut() {
             for c in ch {
-                adjust(c, old, mode, ignore_ctime);
+                adjust(c, old, mode, ignore_ctime, subsecond);
             }
         }
     }
-    adjust(tree, &old, mode, ignore_ctime);
+    adjust(tree, &old, mode, ignore_ctime, subsecond);
     (content_changed, flatten(tree) != before)
 }
 
@@ -178,7 +211,7 @@ pub fn run(c: &Case, _ctx: &Ctx) -> Outcome {
         Err(e) => fail!("first backup: {e}"),
     }
     if let Some(mid) = &c.mid {
-        _ = apply_script(&mut tree, mid, TimeMode::Both, c.ignore_ctime, 500);
+        _ = apply_script(&mut tree, mid, TimeMode::Both, c.ignore_ctime, 500, None);
         match do_backup(&tree, &force_opts(), 1_700_000_100) {
             Ok(s) => parents.push(s),
             Err(e) => fail!("second parent backup: {e}"),
@@ -186,7 +219,7 @@ pub fn run(c: &Case, _ctx: &Ctx) -> Outcome {
         out = out.class("two_parents");
     }
     let parent_flat = flatten(&tree);
-    let (content_changed, any_change) = apply_script(&mut tree, &c.edits, c.time_mode, c.ignore_ctime, 1000);
+    let (content_changed, any_change) = apply_script(&mut tree, &c.edits, c.time_mode, c.ignore_ctime, 1000, c.subsecond);
     if c.renumber_inodes {
         renumber(&mut tree, 10_000_000);
         out = out.class("inodes_renumbered");
@@ -313,6 +346,7 @@ pub fn run(c: &Case, _ctx: &Ctx) -> Outcome {
     }
     out = out
         .class(format!("time_mode_{:?}", c.time_mode))
+        .class_if(c.subsecond.is_some() && content_changed, "times_move_within_the_second")
         .class_if(c.ignore_ctime, "ignore_ctime")
         .class_if(c.ignore_inode, "ignore_inode")
         .class_if(c.explicit, "explicit_parents")
@@ -324,7 +358,7 @@ pub fn spec() -> PropSpec {
     PropSpec {
         id: "C11",
         level: "exploration",
-        rule: "proptest: configuration x parent state (optionally a second, edited parent state) x edit script of 0–4 edits (content change with/without size change, touch, chmod, rename, move, type change file<->dir<->symlink, add/remove, duplicate) whose changed files keep the premise (mtime+ctime move; only ctime moves — unless ctime is ignored and the size is unchanged; only the size changes) x parent options (latest-of-group or explicit ids, 1–2 parents, ignore-ctime, ignore-inode, skip-if-unchanged) x optional loss of one parent data pack (removed from storage, index repaired) x optional renumbering of all inodes. Non-trivial = at least one file reused from the parent and at least one file whose content changed (or entries added/removed); distinct by hash of the case.",
+        rule: "proptest: configuration x parent state (optionally a second, edited parent state) x edit script of 0–4 edits (content change with/without size change, touch, chmod, rename, move, type change file<->dir<->symlink, add/remove, duplicate) whose changed files keep the premise (mtime+ctime move; only ctime moves — unless ctime is ignored and the size is unchanged; only the size changes; optionally the moving times move by nanoseconds inside their second) x parent options (latest-of-group or explicit ids, 1–2 parents, ignore-ctime, ignore-inode, skip-if-unchanged) x optional loss of one parent data pack (removed from storage, index repaired) x optional renumbering of all inodes. Non-trivial = at least one file reused from the parent and at least one file whose content changed (or entries added/removed); distinct by hash of the case.",
         assumptions: vec![
             "the reference is the library's own forced backup into a second repository with identical configuration and polynomial: tree ids are a pure function of the generated source (C01 ties forced backups to the model)",
             "the generator never produces a content change that leaves size, mtime and (considered) ctime all unchanged — outside the statement's premise",
